@@ -110,7 +110,11 @@ func (w *world) logical(real uint64) uint64 {
 }
 
 func waitUntil(what string, cond func() bool) bool {
-	deadline := time.Now().Add(20 * time.Second)
+	limit := 20 * time.Second
+	if what == "flush" {
+		limit = 5 * time.Second // one hop: the face's own send goroutine
+	}
+	deadline := time.Now().Add(limit)
 	for i := 0; ; i++ {
 		if cond() {
 			return true
